@@ -100,13 +100,12 @@ Print Assumptions C01_axes_full.
 
 (* non-vacuity *)
 (* "... unless a tolerance is given, in which case the nearest label is used if and only if it lies within the
-   tolerance": on a non-empty numeric axis [qs], for a numeric request [qv] and a tolerance t, either a position is
+   tolerance": on a numeric axis [qs] (empty or not), for a numeric request [qv] and a tolerance t, either a position is
    returned - it is then in range, its label is a NEAREST one (the first such in stored order) and lies within t -
    or IndexError is raised and then EVERY label is farther than t.  [dists qs qv] = |label - request| per position. *)
 Theorem C01_tolerance : forall ls qs v qv t,
   label_num v = Some qv ->
   mapM (fun x => match label_num x with Some q => Ok q | None => Err TypeError end) ls = Ok qs ->
-  qs <> [] ->
   (exists m, locate_one_tol ls v (TolQ t) = Ok m /\ m < List.length qs /\
              (nth m (dists qs qv) 0 <= t)%Q /\
              (forall j, j < List.length qs -> (nth m (dists qs qv) 0 <= nth j (dists qs qv) 0)%Q) /\
